@@ -19,8 +19,11 @@ var allPools = []Pool{
 	{Name: "wempty", Managed: true, Its: []string{"it-a", "it-b"}, After: ip(30 * sec), Policy: "WhenEmpty"},
 	{Name: "bal", Managed: true, Its: []string{"it-a"}, After: ip(60 * sec), Policy: "Balanced"},
 	{Name: "never", Managed: true, Its: []string{"it-a"}, After: nil, Policy: "WhenEmptyOrUnderutilized"},
-	{Name: "static", Managed: true, Its: []string{"it-a", "it-b"}, Static: true, After: ip(30 * sec), Policy: "WhenEmptyOrUnderutilized"},
-	{Name: "staticnever", Managed: true, Its: []string{"it-a"}, Static: true, After: nil, Policy: "WhenEmpty"},
+	{Name: "static", Managed: true, Its: []string{"it-a", "it-b"}, Static: true, Replicas: 2, After: ip(30 * sec), Policy: "WhenEmptyOrUnderutilized"},
+	{Name: "staticnever", Managed: true, Its: []string{"it-a"}, Static: true, Replicas: 5, After: nil, Policy: "WhenEmpty"},
+	{Name: "static0", Managed: true, Its: []string{"it-a"}, Static: true, Replicas: 0, After: ip(30 * sec), Policy: "WhenEmptyOrUnderutilized"},
+	{Name: "nopolicy", Managed: true, Its: []string{"it-a"}, After: ip(30 * sec), Policy: ""},
+	{Name: "uneval", Managed: true, ItsErr: true, ItsErrKind: "unevaluated", After: ip(30 * sec), Policy: "WhenEmptyOrUnderutilized"},
 	{Name: "unmgd", Managed: false, Its: []string{"it-a"}, After: ip(30 * sec), Policy: "WhenEmptyOrUnderutilized"},
 	{Name: "noits", Managed: true, Its: []string{}, After: ip(30 * sec), Policy: "WhenEmptyOrUnderutilized"},
 	{Name: "iterr", Managed: true, ItsErr: true, After: ip(30 * sec), Policy: "WhenEmptyOrUnderutilized"},
@@ -263,14 +266,82 @@ func perts() []pert {
 	add("claim-dnd-true-registered", "node-dnd", func(g *gw, n *SNode) { n.Claim.Annos["dnd"] = "true" })
 	add("no-pool-label", "pool", func(g *gw, n *SNode) { delete(n.Node.Labels, "np") })
 	add("pool-label-empty", "pool", func(g *gw, n *SNode) { n.Node.Labels["np"] = "" })
-	for _, p := range []string{"unknown", "unmgd", "noits", "iterr"} {
+	for _, p := range []string{"unknown", "unmgd", "noits", "iterr", "uneval"} {
 		p := p
 		add("pool-"+p, "pool", func(g *gw, n *SNode) { setPool(n, p) })
 	}
-	for _, p := range []string{"never", "wempty", "bal", "dyn0", "static", "staticnever", "dyn"} {
+	for _, p := range []string{"never", "wempty", "bal", "dyn0", "static", "staticnever", "dyn", "static0", "nopolicy"} {
 		p := p
 		add("pool-"+p, "pool-kind", func(g *gw, n *SNode) { setPool(n, p) })
 	}
+	// object deletions and re-creations in cluster state (event orders): the protection memory lives as long as the entry
+	add("delnode", "lifecycle", func(g *gw, n *SNode) { g.at(g.F/2, "delnode", n.ID) })
+	add("delclaim", "lifecycle", func(g *gw, n *SNode) { g.at(g.F/2, "delclaim", n.ID) })
+	add("delboth", "lifecycle", func(g *gw, n *SNode) { g.at(g.F/2, "delnode", n.ID); g.at(g.F/2, "delclaim", n.ID) })
+	add("delnode-readd", "lifecycle", func(g *gw, n *SNode) { g.at(g.F/3, "delnode", n.ID); g.at(g.F/2, "refresh", n.ID) })
+	add("delclaim-readd", "lifecycle", func(g *gw, n *SNode) { g.at(g.F/3, "delclaim", n.ID); g.at(g.F/2, "refresh", n.ID) })
+	add("delboth-readd", "lifecycle", func(g *gw, n *SNode) {
+		g.at(g.F/3, "delclaim", n.ID)
+		g.at(g.F/3, "delnode", n.ID)
+		g.at(g.F/2, "refresh", n.ID)
+	})
+	add("marked-delnode-readd", "lifecycle", func(g *gw, n *SNode) {
+		g.at(g.F/4, "mark", n.ID)
+		g.at(g.F/3, "delnode", n.ID)
+		g.at(g.F/2, "refresh", n.ID)
+	})
+	add("marked-delclaim-readd", "lifecycle", func(g *gw, n *SNode) {
+		g.at(g.F/4, "mark", n.ID)
+		g.at(g.F/3, "delclaim", n.ID)
+		g.at(g.F/2, "refresh", n.ID)
+	})
+	add("marked-delboth-readd", "lifecycle", func(g *gw, n *SNode) {
+		g.at(g.F/4, "mark", n.ID)
+		g.at(g.F/3, "delnode", n.ID)
+		g.at(g.F/3, "delclaim", n.ID)
+		g.at(g.F/2, "refresh", n.ID)
+	})
+	add("delnode-marked-readd", "lifecycle", func(g *gw, n *SNode) {
+		g.at(g.F/4, "delnode", n.ID)
+		g.at(g.F/3, "mark", n.ID)
+		g.at(g.F/2, "refresh", n.ID)
+	})
+	add("delboth-marked-readd", "lifecycle", func(g *gw, n *SNode) {
+		g.at(g.F/4, "delnode", n.ID)
+		g.at(g.F/4, "delclaim", n.ID)
+		g.at(g.F/3, "mark", n.ID) // no entry: a no-op
+		g.at(g.F/2, "refresh", n.ID)
+	})
+	add("nominated-delnode-readd", "lifecycle", func(g *gw, n *SNode) {
+		g.at(g.F-5*sec, "nominate", n.ID)
+		g.at(g.F-4*sec, "delnode", n.ID)
+		g.at(g.F-3*sec, "refresh", n.ID)
+	})
+	add("nominated-delclaim-readd", "lifecycle", func(g *gw, n *SNode) {
+		g.at(g.F-5*sec, "nominate", n.ID)
+		g.at(g.F-4*sec, "delclaim", n.ID)
+		g.at(g.F-3*sec, "refresh", n.ID)
+	})
+	add("nominated-delboth-readd", "lifecycle", func(g *gw, n *SNode) {
+		g.at(g.F-5*sec, "nominate", n.ID)
+		g.at(g.F-4*sec, "delclaim", n.ID)
+		g.at(g.F-4*sec, "delnode", n.ID)
+		g.at(g.F-3*sec, "refresh", n.ID)
+	})
+	add("delnode-nominated-readd", "lifecycle", func(g *gw, n *SNode) {
+		g.at(g.F-5*sec, "delnode", n.ID)
+		g.at(g.F-4*sec, "nominate", n.ID)
+		g.at(g.F-3*sec, "refresh", n.ID)
+	})
+	// how cluster state accepts Node objects
+	add("node-no-providerid", "no-node", func(g *gw, n *SNode) { n.Node.NoProviderID = true })
+	add("node-no-it-label-uninit", "no-node", func(g *gw, n *SNode) { delete(n.Node.Labels, "it"); delete(n.Node.Labels, "init") })
+	// dimensions that feed only prices / disruption cost: the candidate set must not depend on them
+	add("offering-zone-spot", "cost-only", func(g *gw, n *SNode) { n.Node.Labels["zone"] = "test-zone-1"; n.Node.Labels["ct"] = "spot" })
+	add("offering-zone-od", "cost-only", func(g *gw, n *SNode) { n.Node.Labels["zone"] = "test-zone-2"; n.Node.Labels["ct"] = "on-demand" })
+	add("expire-after-1h", "cost-only", func(g *gw, n *SNode) { n.Claim.ExpireAfter = ip(3600 * sec) })
+	add("expire-after-expired", "cost-only", func(g *gw, n *SNode) { n.Claim.ExpireAfter = ip(60 * sec) })
+	add("expire-after-0", "cost-only", func(g *gw, n *SNode) { n.Claim.ExpireAfter = ip(0) })
 	add("queued", "queued", func(g *gw, n *SNode) { n.Queued = true })
 	add("it-unknown", "labels", func(g *gw, n *SNode) { n.Node.Labels["it"] = "it-zzz" })
 	add("it-other", "labels", func(g *gw, n *SNode) { n.Node.Labels["it"] = "it-b" })
@@ -318,6 +389,12 @@ func perts() []pert {
 	addPod("pod-succeeded", "emptiness", func(g *gw, n *SNode, p *Pod) { p.Phase = "Succeeded" })
 	addPod("pod-failed", "emptiness", func(g *gw, n *SNode, p *Pod) { p.Phase = "Failed" })
 	addPod("pod-pending", "emptiness", func(g *gw, n *SNode, p *Pod) { p.Phase = "Pending" })
+	addPod("pod-unknown-phase", "emptiness", func(g *gw, n *SNode, p *Pod) { p.Phase = "Unknown" })
+	addPod("pod-two-owners-rs-ds", "emptiness", func(g *gw, n *SNode, p *Pod) {
+		p.Owners = [][2]string{{"apps/v1", "ReplicaSet"}, {"apps/v1", "DaemonSet"}}
+	})
+	addPod("pod-two-owners-job-node", "emptiness", func(g *gw, n *SNode, p *Pod) { p.Owners = [][2]string{{"batch/v1", "Job"}, {"v1", "Node"}} })
+	addPod("pod-other-namespace", "emptiness", func(g *gw, n *SNode, p *Pod) { p.NS = "other" })
 	addPod("pod-no-owner", "emptiness", func(g *gw, n *SNode, p *Pod) { p.Owners = nil })
 	for _, c := range []string{"-134217728", "-134217727", "-134217729", "-2147483647", "2147483647", "0", "garbage", "-1342177280"} {
 		c := c
@@ -370,6 +447,16 @@ func perts() []pert {
 	addPod("pdb-0-otherns", "pdb", func(g *gw, n *SNode, p *Pod) { g.pdbFor(*p, 0).NS = "other" })
 	addPod("pdb-0-mismatch", "pdb", func(g *gw, n *SNode, p *Pod) { (*g.pdbFor(*p, 0).Sel)["app"] = "zzz" })
 	addPod("pdb-0-extra-key", "pdb", func(g *gw, n *SNode, p *Pod) { (*g.pdbFor(*p, 0).Sel)["tier"] = "" })
+	addPod("pdb-0-pod-in-other-ns", "pdb", func(g *gw, n *SNode, p *Pod) { p.NS = "other"; g.pdbFor(*p, 0) })
+	addPod("pdb-0-pod-in-other-ns-pdb-default", "pdb", func(g *gw, n *SNode, p *Pod) { g.pdbFor(*p, 0); p.NS = "other" })
+	addPod("pdb-0-ifhealthybudget-explicit", "pdb", func(g *gw, n *SNode, p *Pod) {
+		g.pdbFor(*p, 0).IfHealthy = true
+		p.Conds = [][2]string{{"Ready", "False"}}
+	})
+	addPod("pdb-1-fully-blocking-spec", "pdb", func(g *gw, n *SNode, p *Pod) { g.pdbFor(*p, 1).FullyBlocking = true })
+	addPod("pdb-0-fully-blocking-spec", "pdb", func(g *gw, n *SNode, p *Pod) { g.pdbFor(*p, 0).FullyBlocking = true })
+	addPod("pdb-2", "pdb", func(g *gw, n *SNode, p *Pod) { g.pdbFor(*p, 2) })
+	addPod("pdb-invalid-selector", "fault", func(g *gw, n *SNode, p *Pod) { g.pdbFor(*p, 1).Invalid = true })
 	addPod("pdb-0-nilsel", "pdb", func(g *gw, n *SNode, p *Pod) { g.pdbFor(*p, 0).Sel = nil })
 	addPod("pdb-0-emptysel", "pdb", func(g *gw, n *SNode, p *Pod) { g.pdbFor(*p, 0).Sel = &map[string]string{} })
 	addPod("pdb-multi-1-1", "pdb", func(g *gw, n *SNode, p *Pod) { g.pdbFor(*p, 1); g.pdbFor(*p, 1) })
